@@ -268,6 +268,7 @@ def content_kind_part(check):
                 r = run_cli(["--lang", lang] + tgt + lang_args(lang) + [sc.path("ws")], cwd=sc.dir)
                 ref[vi] = (r["rc"], outputs_of(sc.path("ref%d" % vi)), r["err"][-600:])
             fs_model, real_prev, prev_vi = [], {}, None
+            weak_told = []
             for step, vi in enumerate(hist):
                 write_tree(sc, "ws", versions[vi])
                 time.sleep(0.02)
@@ -360,10 +361,12 @@ def content_kind_part(check):
                                 f, "rewritten (mtime changed)" if rewritten else "left untouched", "a write" if mm == step + 1 else "no write")
                         if diff:
                             break
-                if diff:
+                if diff and not weak_told:
                     check.violation("%s: %s" % (where, diff), case=case, impl=impl, model=model_out, failing_input=False,
                                     broken="C17 tie: Writer.run (checkWriteFile) against the binary's writer, files not covered by the oracle")
-                    break
+                    # the history goes on: a later step may show what the difference costs the user (e.g. a file a failed run left
+                    # behind that makes every later run fail - then the exit status differs from the fresh run: a failing input)
+                    weak_told.append(step)
                 real_prev, prev_vi = real, vi
             else:
                 if sum(1 for s_ in check.samples if isinstance(s_, dict) and s_.get("part") == "content-kind") < 2:
